@@ -1,0 +1,244 @@
+//go:build verif
+
+package art
+
+import (
+	"fmt"
+	"unsafe"
+)
+
+// Verification-only, read-only structural walker (build tag "verif").
+// Nothing in this file is compiled into a normal build and nothing here
+// writes to a tree.
+
+type VerifLeaf struct {
+	Addr  uintptr
+	Key   []byte // original key form as stored in the leaf (copy)
+	TKey  []byte // transformed key the index is built over (copy)
+	Value any
+}
+
+type VerifChild struct {
+	Byte  byte
+	Slot  int
+	Inner *VerifInner
+	Leaf  *VerifLeaf
+}
+
+type VerifInner struct {
+	Addr        uintptr
+	Kind        int // 4, 16, 48, 256
+	ChildrenLen int
+	PrefixLen   uint32
+	Prefix      [maxPrefixLen]byte
+	Lanes       []byte       // node4: 4 raw key lanes, node16: 16 raw key lanes; nil otherwise
+	Children    []VerifChild // node4/16: slots 0..ChildrenLen-1; node48/256: ascending byte
+	Faults      []string     // structural impossibilities found while reading this node
+	StaleSlots  int          // non-nil child slots that are not registered (reported, not judged)
+}
+
+type VerifTree struct {
+	Size      int
+	RootLeaf  *VerifLeaf
+	RootInner *VerifInner
+	Inners    int
+	Leaves    int
+	Faults    []string // walker-level: cycle, caps hit, bad tag
+}
+
+type verifLeafDecoder func(unsafe.Pointer) *VerifLeaf
+
+type verifRooter interface {
+	verifRoot() (nodeRef, int, verifLeafDecoder)
+}
+
+func verifCopy(b []byte) []byte {
+	c := make([]byte, len(b))
+	copy(c, b)
+	return c
+}
+
+func (t *alphaSortedTree[K, V]) verifRoot() (nodeRef, int, verifLeafDecoder) {
+	return t.root, t.size, func(p unsafe.Pointer) *VerifLeaf {
+		l := (*alphaLeafNode[V])(p)
+		return &VerifLeaf{Addr: uintptr(p), Key: verifCopy(l.getKey()), TKey: verifCopy(l.getTransformKey()), Value: l.value}
+	}
+}
+
+func (t *unsignedSortedTree[K, V]) verifRoot() (nodeRef, int, verifLeafDecoder) {
+	return t.root, t.size, func(p unsafe.Pointer) *VerifLeaf {
+		l := (*unsignedLeafNode[V])(p)
+		return &VerifLeaf{Addr: uintptr(p), Key: verifCopy(l.getKey()), TKey: verifCopy(l.getTransformKey()), Value: l.value}
+	}
+}
+
+func (t *signedSortedTree[K, V]) verifRoot() (nodeRef, int, verifLeafDecoder) {
+	return t.root, t.size, func(p unsafe.Pointer) *VerifLeaf {
+		l := (*signedLeafNode[V])(p)
+		return &VerifLeaf{Addr: uintptr(p), Key: verifCopy(l.getKey()), TKey: verifCopy(l.getTransformKey()), Value: l.value}
+	}
+}
+
+func (t *floatSortedTree[K, V]) verifRoot() (nodeRef, int, verifLeafDecoder) {
+	return t.root, t.size, func(p unsafe.Pointer) *VerifLeaf {
+		l := (*floatLeafNode[V])(p)
+		return &VerifLeaf{Addr: uintptr(p), Key: verifCopy(l.getKey()), TKey: verifCopy(l.getTransformKey()), Value: l.value}
+	}
+}
+
+func (t *compoundSortedTree[K, V]) verifRoot() (nodeRef, int, verifLeafDecoder) {
+	return t.root, t.size, func(p unsafe.Pointer) *VerifLeaf {
+		l := (*compoundLeafNode[V])(p)
+		return &VerifLeaf{Addr: uintptr(p), Key: verifCopy(l.getKey()), TKey: verifCopy(l.getTransformKey()), Value: l.value}
+	}
+}
+
+func (t *collationSortedTree[K, V]) verifRoot() (nodeRef, int, verifLeafDecoder) {
+	return t.root, t.size, func(p unsafe.Pointer) *VerifLeaf {
+		l := (*collateLeafNode[V])(p)
+		return &VerifLeaf{Addr: uintptr(p), Key: verifCopy(l.getKey()), TKey: verifCopy(l.getTransformKey()), Value: l.value}
+	}
+}
+
+const (
+	verifMaxDepth = 1 << 14
+	verifMaxNodes = 1 << 24
+)
+
+type verifWalker struct {
+	dec   verifLeafDecoder
+	out   *VerifTree
+	onPth map[unsafe.Pointer]bool
+}
+
+// VerifDump returns a snapshot of the whole index. ok is false when the
+// argument is not one of this package's trees.
+func VerifDump(tree any) (VerifTree, bool) {
+	r, ok := tree.(verifRooter)
+	if !ok {
+		return VerifTree{}, false
+	}
+	root, size, dec := r.verifRoot()
+	out := VerifTree{Size: size}
+	w := &verifWalker{dec: dec, out: &out, onPth: map[unsafe.Pointer]bool{}}
+	if root.pointer != nil {
+		if root.tag == nodeKindLeaf {
+			out.RootLeaf = dec(root.pointer)
+			out.Leaves++
+		} else {
+			out.RootInner = w.inner(root, 0)
+		}
+	}
+	return out, true
+}
+
+func (w *verifWalker) child(in *VerifInner, b byte, slot int, ref nodeRef, depth int) {
+	c := VerifChild{Byte: b, Slot: slot}
+	switch {
+	case ref.pointer == nil:
+		in.Faults = append(in.Faults, fmt.Sprintf("nil child registered under byte %#02x slot %d", b, slot))
+	case ref.tag == nodeKindLeaf:
+		c.Leaf = w.dec(ref.pointer)
+		w.out.Leaves++
+	case ref.tag < nodeKindLeaf:
+		c.Inner = w.inner(ref, depth+1)
+	default:
+		in.Faults = append(in.Faults, fmt.Sprintf("child under byte %#02x slot %d has invalid tag %d", b, slot, ref.tag))
+	}
+	in.Children = append(in.Children, c)
+}
+
+func (w *verifWalker) inner(ref nodeRef, depth int) *VerifInner {
+	in := &VerifInner{Addr: uintptr(ref.pointer)}
+	w.out.Inners++
+	if depth > verifMaxDepth || w.out.Inners > verifMaxNodes {
+		w.out.Faults = append(w.out.Faults, "walker cap reached (depth or node count)")
+		in.Faults = append(in.Faults, "not expanded: walker cap")
+		return in
+	}
+	if w.onPth[ref.pointer] {
+		w.out.Faults = append(w.out.Faults, fmt.Sprintf("cycle through inner node %#x", uintptr(ref.pointer)))
+		in.Faults = append(in.Faults, "not expanded: cycle")
+		return in
+	}
+	w.onPth[ref.pointer] = true
+	defer delete(w.onPth, ref.pointer)
+
+	n := ref.node()
+	in.ChildrenLen = int(n.childrenLen)
+	in.PrefixLen = n.prefixLen
+	in.Prefix = n.prefix
+
+	switch ref.tag {
+	case nodeKind4:
+		in.Kind = 4
+		n4 := (*node4)(ref.pointer)
+		in.Lanes = deconstruct(n4.keys)
+		cl := in.ChildrenLen
+		if cl > int(maxNode4) {
+			in.Faults = append(in.Faults, fmt.Sprintf("childrenLen %d exceeds class capacity 4", cl))
+			cl = int(maxNode4)
+		}
+		for i := 0; i < cl; i++ {
+			w.child(in, in.Lanes[i], i, n4.children[i], depth)
+		}
+		for i := cl; i < int(maxNode4); i++ {
+			if n4.children[i].pointer != nil {
+				in.StaleSlots++
+			}
+		}
+	case nodeKind16:
+		in.Kind = 16
+		n16 := (*node16)(ref.pointer)
+		in.Lanes = verifCopy(n16.keys[:])
+		cl := in.ChildrenLen
+		if cl > int(maxNode16) {
+			in.Faults = append(in.Faults, fmt.Sprintf("childrenLen %d exceeds class capacity 16", cl))
+			cl = int(maxNode16)
+		}
+		for i := 0; i < cl; i++ {
+			w.child(in, in.Lanes[i], i, n16.children[i], depth)
+		}
+		for i := cl; i < int(maxNode16); i++ {
+			if n16.children[i].pointer != nil {
+				in.StaleSlots++
+			}
+		}
+	case nodeKind48:
+		in.Kind = 48
+		n48 := (*node48)(ref.pointer)
+		var used [maxNode48]bool
+		for b := 0; b < 256; b++ {
+			idx := int(n48.keys[b])
+			if idx == 0 {
+				continue
+			}
+			if idx > int(maxNode48) {
+				in.Faults = append(in.Faults, fmt.Sprintf("index entry for byte %#02x is %d, outside 1..48", b, idx))
+				continue
+			}
+			if used[idx-1] {
+				in.Faults = append(in.Faults, fmt.Sprintf("slot %d registered under two bytes (second: %#02x)", idx-1, b))
+			}
+			used[idx-1] = true
+			w.child(in, byte(b), idx-1, n48.children[idx-1], depth)
+		}
+		for i := 0; i < int(maxNode48); i++ {
+			if !used[i] && n48.children[i].pointer != nil {
+				in.StaleSlots++
+			}
+		}
+	case nodeKind256:
+		in.Kind = 256
+		n256 := (*node256)(ref.pointer)
+		for b := 0; b < 256; b++ {
+			if n256.children[b].pointer == nil {
+				continue
+			}
+			w.child(in, byte(b), b, n256.children[b], depth)
+		}
+	default:
+		in.Faults = append(in.Faults, fmt.Sprintf("invalid inner tag %d", ref.tag))
+	}
+	return in
+}
